@@ -704,7 +704,8 @@ func (db *RockDB) SetRange(ts int64, rawKey []byte, offset int, value []byte) (i
 		// the committed entry is applied, on every replica and on every replay.
 		return 0, errOffsetOutOfRange
 	}
-	if len(value)+offset > MaxValueSize {
+	// compare without adding to the offset: for a huge offset the sum overflows and passes the check
+	if offset > MaxValueSize-len(value) {
 		return 0, errValueSize
 	}
 	keyInfo, realV, err := db.prepareKVValueForWrite(ts, rawKey, false)
